@@ -4,6 +4,7 @@ SPECIFICATION Spec
 CONSTANTS
   Threads = {1, 2}
   Rounds = 2
+  MoreRounds = {}
   PassiveSpin = 5
   Spurious = TRUE
   WakeOn = 2
